@@ -113,7 +113,10 @@ static CaseResult run_case(Tape &t)
 			// downstream data carrying bytes of a packet that was sent upstream in the name of a slot that was not logged in
 			if (a.payload.size() >= 2 + 8 && n.cmd && strchr("p0123456789abcdef", n.cmd)) {
 				Bytes frag(a.payload.begin() + 2, a.payload.end());
-				for (auto &z : E.unauth_upstream) if (contains(z, frag)) E.v.fail("C03", "C03:forwarded-unauth", fmt("downstream data for slot %d carries a packet that was sent upstream in the name of a slot that was not logged in", n.user));
+				// (compressed packets of similar size share their first bytes: with a fragment size of 9 a fragment of a legitimately sent
+				// packet is also found in one that was sent without login, so bytes that also occur in a legitimate packet prove nothing)
+				bool legit = false; for (auto &z : E.auth_upstream) if (contains(z, frag)) legit = true;
+				if (!legit) for (auto &z : E.unauth_upstream) if (contains(z, frag)) E.v.fail("C03", "C03:forwarded-unauth", fmt("downstream data for slot %d carries a packet that was sent upstream in the name of a slot that was not logged in", n.user));
 			}
 		}
 		learn_from_emission(E, dg);
